@@ -43,14 +43,21 @@
                   - addFieldSelections files exactly the inductively collected fields ([InC]) when selection
                     sets sit at distinct positions                               (C04_collect_complete, C04_collect_sound,
                                                                                C04_subscription_single_root_model)
-    NOT proved: the equivalences for 5.2.3.1 (subscription root: the Spec's CollectFields against [InC];
-    the model side is proved) and 5.3.2 (FieldsInSetCanMerge / SameResponseShape), hence validate_verdict itself;
-    validate_error_located.  These are covered on every run by the correspondence check and the
-    Spec oracle only. *)
-From Coq Require Import List NArith.
+                  - 5.2.3.1: the Spec's CollectFields holds exactly the inductively collected fields, so the
+                    subscription check is 5.2.3.1; validate_verdict up to 5.3.2 alone   (C04_spec_collected_complete,
+                                                                               C04_subscription_check_is_5_2_3_1, C04_verdict_up_to_merge_partial)
+                  - 5.3.2, soundness (accepted -> the fields under one response key can merge, recursively),
+                    fields defined on every possible object type, acyclicity as chains
+                                                                              (C04_accepted_merge_sound, C04_fields_defined_on_possible,
+                                                                               C04_spreads_silent_acyclic_chains)
+    NOT proved: that the overlapping-fields pass agrees with the Spec's FieldsInSetCanMerge /
+    SameResponseShape (5.3.2: completeness, and soundness in the Spec's own encoding), hence
+    validate_verdict itself; validate_error_located.  These are covered on every run by the
+    correspondence check and the Spec oracle only. *)
+From Coq Require Import List NArith Bool.
 From ApiFu Require Import Base.Sexp Vld.Ast Vld.Inspect Vld.InspectProofs Vld.TypeInfoModel Vld.TypeInfoPure Vld.ValidatorModel Vld.ValidSpec
      Vld.Hyps Vld.ProofsCommon Vld.ProofsDirectives Vld.ProofsArguments Vld.ProofsFragDecl Vld.ProofsValues
-     Vld.ProofsCycles Vld.ProofsVarsOrder Vld.ProofsOrder Vld.ProofsOperations Vld.ProofsTotal Vld.Enumerate Vld.ProofsFields Vld.ProofsMemo Vld.ValidatorProofs Vld.ProofsSpreads Vld.ProofsSecondary Vld.ProofsSecondaryAll Vld.ProofsSpreadsSpec Vld.ProofsFieldsConverse Vld.ProofsVarsConverse Vld.ProofsComplete Vld.ProofsCollect Vld.ProofsSpecReach Vld.ProofsVarsSpec Vld.ProofsDepth Vld.ProofsDepthRule Vld.MemoTransfer Vld.ProofsMemoConverse Vld.MemoEquiv Vld.ProofsTypeInfoValues Vld.Witness.
+     Vld.ProofsCycles Vld.ProofsVarsOrder Vld.ProofsOrder Vld.ProofsOperations Vld.ProofsTotal Vld.Enumerate Vld.ProofsFields Vld.ProofsMemo Vld.ValidatorProofs Vld.ProofsSpreads Vld.ProofsSecondary Vld.ProofsSecondaryAll Vld.ProofsSpreadsSpec Vld.ProofsFieldsConverse Vld.ProofsVarsConverse Vld.ProofsComplete Vld.ProofsCollect Vld.ProofsMergeSound Vld.ProofsMergeNames Vld.ProofsMergeLocal Vld.ProofsPossibleFields Vld.ProofsSpecCollect Vld.ProofsSubscription Vld.ProofsSpecReach Vld.ProofsVarsSpec Vld.ProofsDepth Vld.ProofsDepthRule Vld.MemoTransfer Vld.ProofsMemoConverse Vld.MemoEquiv Vld.ProofsTypeInfoValues Vld.Witness.
 Import ListNotations.
 
 (** ** determinism: acceptance is a function of schema, features and document alone *)
@@ -418,6 +425,164 @@ Theorem C04_subscription_single_root_model : forall A,
    (exists f, InC A ss f) /\ forall f g, InC A ss f -> InC A ss g -> response_name f = response_name g).
 Proof. exact single_key_iff. Qed.
 
+(** ** 5.3.2, soundness: what the overlapping-fields pass guarantees of an accepted document
+    For EVERY selection set [ss] of the document (as NewTypeInfo annotates it) addFieldSelections
+    succeeds, and the map [m] it files the collected fields in — one entry per response key, each field
+    with the parent type of the selection set it is written in — is [MergeOK]: any two fields [x]
+    before [y] under one key
+      - have types of compatible shapes ([ShapeOK]: list / non-null wrappers agree, leaf types are
+        equal, and for composite types the same holds of any two fields under one key of the merged
+        sub-selections, recursively);
+      - have known parent types [pa], [pb]; and when [pa] = [pb] or one of them is not an object type
+        ([may_overlap]) they select the same field name, have identical arguments ([args_check]),
+        and the map of their merged sub-selections is [MergeOK] again.
+    (Two fields under one key whose parents are different object types can never both apply.)
+    [C04_subscription_single_root_model] / [C04_collect_complete] say which fields [m] holds.
+    For the pipeline with the memo the field selections must sit at pairwise distinct positions
+    (the memo identifies a pair of fields by their positions; true of parsed documents, C06). *)
+Theorem C04_accepted_merge_sound : forall pi S F D,
+  order_ok pi -> doc_field_positions_distinct D -> validate_model_memo repaired pi S F D = Done [] ->
+  forall ss, In ss (all_subs (pti_doc (q_unwrap_obj repaired) S F D)) ->
+  exists m v, add_selections repaired (pti_doc (q_unwrap_obj repaired) S F D) [] (Some ss) = COk m v /\
+              MergeOK S (pti_doc (q_unwrap_obj repaired) S F D) m.
+Proof. exact memo_accepted_merge_sound. Qed.
+Theorem C04_accepted_merge_sound_plain : forall pi S F D,
+  order_ok pi -> validate_model repaired pi S F D = Done [] ->
+  forall ss, In ss (all_subs (pti_doc (q_unwrap_obj repaired) S F D)) ->
+  exists m v, add_selections repaired (pti_doc (q_unwrap_obj repaired) S F D) [] (Some ss) = COk m v /\
+              MergeOK S (pti_doc (q_unwrap_obj repaired) S F D) m.
+Proof. exact accepted_merge_sound. Qed.
+(** the two predicates, unfolded once (they are inductive: the recursion goes through the merged
+    sub-selections) *)
+Theorem C04_merge_ok_unfold : forall S A m, MergeOK S A m ->
+  forall k l, In (k, l) m ->
+  ForallOrdPairs (fun x y =>
+    ShapeOK S A (fst3 x) (fst3 y) /\
+    exists pa pb, snd (fst x) = Some pa /\ snd (fst y) = Some pb /\
+      (may_overlap S pa pb = true ->
+       name_eqb (sel_name (fst3 x)) (sel_name (fst3 y)) = true /\
+       args_check repaired (fst3 x) (fst3 y) = MOk /\
+       exists m1 v1 m2 v2, add_selections repaired A [] (sel_sub (fst3 x)) = COk m1 v1 /\
+                           add_selections repaired A m1 (sel_sub (fst3 y)) = COk m2 v2 /\ MergeOK S A m2)) l.
+Proof. exact merge_ok_unfold. Qed.
+Theorem C04_shape_ok_unfold : forall S A X Y, ShapeOK S A X Y ->
+  exists tX tY a b, shape_type X = inl tX /\ shape_type Y = inl tY /\ shape_loop tX tY = inl (a, b) /\
+    (is_leaf_sty S a || is_leaf_sty S b = true -> sty_eqb a b = true) /\
+    (is_leaf_sty S a || is_leaf_sty S b = false ->
+     exists m1 v1 m2 v2, add_selections repaired A [] (sel_sub X) = COk m1 v1 /\ add_selections repaired A m1 (sel_sub Y) = COk m2 v2 /\
+                         forall k l, In (k, l) m2 -> ForallOrdPairs (fun x y => ShapeOK S A (fst3 x) (fst3 y)) l).
+Proof. exact shape_ok_unfold. Qed.
+
+(** for ANY two distinct fields filed under one response key (whichever was filed first): their parent
+    types are known, and if these may overlap the two fields select the same field name *)
+Theorem C04_merge_ok_parents_names : forall S A m,
+  MergeOK S A m -> forall k l, In (k, l) m -> forall x y, In x l -> In y l -> x <> y ->
+  exists pa pb, snd (fst x) = Some pa /\ snd (fst y) = Some pb /\
+                (may_overlap S pa pb = true -> sel_name (fst3 x) = sel_name (fst3 y)).
+Proof. exact merge_ok_parents_names. Qed.
+
+(** ** the local checks of the overlapping-fields pass are the Spec's (towards 5.3.2 in the Spec's encoding)
+    valuesAreIdentical is [same_value]; the argument comparison (lengths, then for every argument of B
+    the LAST argument of that name of A) is [same_args] when argument names are unique on both fields
+    (5.4.2); the unwrapping loop of validateSameResponseShape is [strip_shape] on types without a
+    non-null directly inside a non-null ([wf_sty]).  What remains open of 5.3.2 is that the two
+    traversals pair the same fields (the Spec pairs all fields of [collected] with equal response
+    names, the validator the fields filed under one key, in its own order). *)
+Theorem C04_values_identical_spec : forall v w, values_identical v w = same_value v w.
+Proof. exact values_identical_spec. Qed.
+Theorem C04_args_check_same_args : forall X Y,
+  NoDup (map a_name (sel_args X)) -> NoDup (map a_name (sel_args Y)) ->
+  (args_check repaired X Y = MOk <-> same_args (sel_args X) (sel_args Y) = true).
+Proof. exact args_check_same_args. Qed.
+Theorem C04_shape_loop_strip : forall tA tB a b,
+  wf_sty tA = true -> wf_sty tB = true -> (shape_loop tA tB = inl (a, b) <-> strip_shape tA tB = Some (a, b)).
+Proof. exact shape_loop_strip. Qed.
+
+(** ** conjunct (f) of C01's doc_ok: defined on the parent type => defined on every possible object type
+    [possible S F p] (the Spec's GetPossibleTypes): [p] itself for an object type, the visible object
+    types that declare the interface, the members of the union.  [schema_ifaces_ok] (decidable,
+    evaluated on every generated schema): an object type has the fields of the interfaces it declares,
+    requiring no more features than the interface's field (ObjectType.satisfyInterface), and union
+    members are object types. *)
+Theorem C04_defined_on_possible : forall S F,
+  schema_impls_ok S = true -> schema_ifaces_ok S = true ->
+  forall p n d, field_def_of S F p n = Some d -> forall x, In x (possible S F p) -> field_def_of S F x n <> None.
+Proof. exact defined_on_possible. Qed.
+Theorem C04_fields_defined_on_possible : forall S F D,
+  schema_impls_ok S = true -> schema_ifaces_ok S = true -> fields_defined S F D = true ->
+  forall o, In o (all_fields S F D) ->
+  forall p, fo_parent o = Some p ->
+  match fo_field o with
+  | SField _ _ n _ _ _ _ => forall x, In x (possible S F p) -> field_def_of S F x n <> None
+  | _ => True
+  end.
+Proof. exact fields_defined_on_possible. Qed.
+
+(** ** acyclicity in the shape of C01's [acyclic_frags]
+    [spread_chain D ss l]: l = n1 :: n2 :: ... is a path of the spread graph that starts in [ss] — n1
+    is spread somewhere in [ss] (at any depth), n2 in the body of n1, ..., every fragment defined
+    ([fragment]: the first definition of the name).  [acyclic_spreads D]: no defined fragment occurs
+    in a chain that starts in its own body.  Stated on the document as written. *)
+Theorem C04_spreads_silent_acyclic_chains : forall pi S F D,
+  order_ok pi -> validate_model_memo repaired pi S F D = Done [] ->
+  forall n d l, fragment D n = Some d -> spread_chain D (def_sub d) l -> ~ In n l.
+Proof. exact memo_accepted_acyclic_spreads. Qed.
+Theorem C04_no_cycle_acyclic_chains : forall D, valid_5_5_2_2 D = true -> acyclic_spreads D.
+Proof. exact no_cycle_acyclic_spreads. Qed.
+
+(** ** 5.2.3.1 against the Spec's CollectFields
+    [InCS D ss f]: the inductive collection on the document as written (fragments looked up as the Spec
+    does).  The Spec's [collected] — visited set of fragment names, fuel one more than the number of
+    fragment definitions — holds exactly these fields: the fuel never runs out because every nesting
+    level marks a defined fragment not marked before.  With [C04_collect_complete] /
+    [C04_collect_sound] the validator's subscription check and the Spec's count agree, operation by
+    operation, when fragment names are unique and selection sets sit at distinct positions
+    ([doc_set_positions_distinct]: true of parsed documents). *)
+Theorem C04_spec_collected_sound : forall S F D parent ss f,
+  (exists par, In (f, par) (collected S F D parent ss)) -> InCS D ss f.
+Proof. exact collected_sound. Qed.
+Theorem C04_spec_collected_complete : forall S F D parent ss f,
+  InCS D ss f -> exists par, In (f, par) (collected S F D parent ss).
+Proof. exact collected_complete. Qed.
+Theorem C04_subscription_check_is_5_2_3_1 : forall S F D k kp n vars dirs ss,
+  NoDup (frag_names D) -> doc_set_positions_distinct D -> In (DOp (Some (k, kp)) n vars dirs ss) D ->
+  name_eqb k s_subscription_kw = true ->
+  forall m v, add_selections repaired (pti_doc (q_unwrap_obj repaired) S F D) [] (Some (def_sub (pti_def (q_unwrap_obj repaired) S F (DOp (Some (k, kp)) n vars dirs ss)))) = COk m v ->
+  (Nat.eqb (length m) 1 = true <->
+   Nat.eqb (length (dedup (map (fun c => resp_name (fst c)) (collected S F D (root_type S (Some (k, (0, 0)%N))) ss)))) 1 = true).
+Proof. exact sub_ok_spec. Qed.
+Theorem C04_accepted_single_root : forall pi S F D,
+  order_ok pi -> schema_ok S = true -> schema_args_ok S = true -> schema_impls_ok S = true -> schema_defaults_ok S = true ->
+  doc_set_positions_distinct D -> validate_model_memo repaired pi S F D = Done [] -> valid_5_2_3_1 S F D = true.
+Proof. exact memo_accepted_5_2_3_1. Qed.
+
+(** the two positional hypotheses ([doc_set_positions_distinct], [doc_field_positions_distinct]) in
+    their decidable form, evaluated on every generated document *)
+Theorem C04_doc_positions_ok_spec : forall D,
+  doc_positions_ok D = true -> doc_set_positions_distinct D /\ doc_field_positions_distinct D.
+Proof. exact doc_positions_ok_spec. Qed.
+
+(** ** validate_verdict up to 5.3.2 (partial)
+    As [C04_verdict_up_to_two_rules_partial], with the subscription check replaced by the Spec's
+    5.2.3.1: what separates this from validate_verdict is the equivalence of the overlapping-fields
+    pass with the Spec's FieldsInSetCanMerge / SameResponseShape alone (its soundness, in this
+    development's encoding, is [C04_accepted_merge_sound]). *)
+Theorem C04_verdict_up_to_merge_partial : forall pi S F D,
+  order_ok pi ->
+  schema_ok S = true -> schema_args_ok S = true -> schema_impls_ok S = true -> schema_defaults_ok S = true ->
+  doc_set_positions_distinct D ->
+  (validate_model_memo repaired pi S F D = Done [] <->
+   (valid_5_2_1_1 D = true /\ valid_5_2_2_1 D = true /\ valid_root S D = true /\
+    valid_5_3_1 S F D = true /\ valid_5_3_3 S F D = true /\
+    valid_5_4 S F D = true /\
+    valid_5_5_1 S F D = true /\ valid_5_5_2_1 D = true /\ valid_5_5_2_2 D = true /\ valid_5_5_2_3 S F D = true /\
+    valid_5_6 S F D = true /\
+    valid_5_7 S D = true /\
+    valid_5_8_1 D = true /\ valid_5_8_2 S F D = true /\ valid_5_8_3 S F D = true /\ valid_5_8_4 S F D = true /\ valid_5_8_5 S F D = true) /\
+   valid_5_2_3_1 S F D = true /\
+   (forall e2, rule_fields_m repaired pi S F (pti_doc (q_unwrap_obj repaired) S F D) = Done e2 -> primary e2 = [])).
+Proof. exact verdict_up_to_merge. Qed.
+
 (** ** rule groups against sections of the specification *)
 (** 5.7.1 – 5.7.3 (directives defined, in valid locations, unique per location): no hypothesis *)
 Theorem C04_rule_directives_iff : forall S F D,
@@ -609,6 +774,24 @@ Print Assumptions C04_verdict_up_to_two_rules_partial.
 Print Assumptions C04_collect_complete.
 Print Assumptions C04_collect_sound.
 Print Assumptions C04_subscription_single_root_model.
+Print Assumptions C04_accepted_merge_sound.
+Print Assumptions C04_accepted_merge_sound_plain.
+Print Assumptions C04_merge_ok_unfold.
+Print Assumptions C04_shape_ok_unfold.
+Print Assumptions C04_merge_ok_parents_names.
+Print Assumptions C04_values_identical_spec.
+Print Assumptions C04_args_check_same_args.
+Print Assumptions C04_shape_loop_strip.
+Print Assumptions C04_defined_on_possible.
+Print Assumptions C04_fields_defined_on_possible.
+Print Assumptions C04_spreads_silent_acyclic_chains.
+Print Assumptions C04_no_cycle_acyclic_chains.
+Print Assumptions C04_spec_collected_sound.
+Print Assumptions C04_spec_collected_complete.
+Print Assumptions C04_subscription_check_is_5_2_3_1.
+Print Assumptions C04_accepted_single_root.
+Print Assumptions C04_doc_positions_ok_spec.
+Print Assumptions C04_verdict_up_to_merge_partial.
 Print Assumptions C04_rule_directives_iff.
 Print Assumptions C04_rule_fragment_declarations_iff.
 Print Assumptions C04_rule_operations_iff_partial.
